@@ -114,9 +114,11 @@ def r24_2(ctx, rep):
     for lp in walk_local(fn):
         if isinstance(lp, ast.For) and isinstance(lp.iter, ast.Name) and isinstance(lp.target, ast.Name):
             for st in lp.body:
-                if isinstance(st, ast.If) and any(isinstance(x, ast.For) and norm(x.iter).endswith(".prefixes") for x in st.orelse) \
-                        and any("variables" in norm(x) for x in st.body):
-                    top = (st.test, lp.target.id)
+                if not isinstance(st, ast.If):
+                    continue
+                for plain, disp, in_body in ((st.body, st.orelse, True), (st.orelse, st.body, False)):
+                    if any(isinstance(x, ast.For) and norm(x.iter).endswith(".prefixes") for x in disp) and any("variables" in norm(x) for x in plain):
+                        top = ((st.test, in_body), lp.target.id)
     for pfx in sorted(allowed):
         to_variables = top is not None and _no_class_test(top[0], top[1], [pfx]) is True
         rep.ob(R, site, "prefix %s" % pfx, has_else or pfx in chain_lits or to_variables,
@@ -129,29 +131,40 @@ def r24_2(ctx, rep):
             rep.ob(R, site, "prefix %s dispatched" % pfx, False, "a symbol with prefix `%s` is sent to the variables list instead of its own list" % pfx)
 
 
-def _no_class_test(test, var, prefixes):
-    """Evaluate the 'symbol has no classifying prefix' test for s.prefixes == prefixes (None = unknown form)."""
+def _truth(test, var, prefixes):
+    """truth value of a test over `<var>.prefixes` for a symbol whose prefixes are `prefixes` (None = unknown form)"""
     pv = var + ".prefixes"
-    t = norm(test)
-    if t in ("len(%s) == 0" % pv, "not %s" % pv):
-        return len(prefixes) == 0
     if isinstance(test, ast.UnaryOp) and isinstance(test.op, ast.Not):
-        inner = test.operand
-        if isinstance(inner, ast.BinOp) and isinstance(inner.op, ast.BitAnd):
-            for a, b in ((inner.left, inner.right), (inner.right, inner.left)):
-                lit = literal(a)
-                if isinstance(lit, (set, list, tuple)) and norm(b) == "set(%s)" % pv:
-                    return not (set(lit) & set(prefixes))
-        if isinstance(inner, ast.Call) and is_name(inner.func, "any") and inner.args and isinstance(inner.args[0], ast.GeneratorExp):
-            g = inner.args[0]
-            lit = literal(g.generators[0].iter)
-            if isinstance(lit, (set, list, tuple)) and norm(g.elt) == "%s in %s" % (g.generators[0].target.id, pv):
-                return not (set(lit) & set(prefixes))
+        r = _truth(test.operand, var, prefixes)
+        return None if r is None else not r
+    t = norm(test)
+    if t == "len(%s) == 0" % pv:
+        return len(prefixes) == 0
+    if t in (pv, "len(%s) > 0" % pv, "len(%s) != 0" % pv, "len(%s)" % pv):
+        return len(prefixes) > 0
+    if isinstance(test, ast.BinOp) and isinstance(test.op, ast.BitAnd):
+        for x, y in ((test.left, test.right), (test.right, test.left)):
+            lit = literal(x)
+            if isinstance(lit, (set, list, tuple)) and norm(y) == "set(%s)" % pv:
+                return bool(set(lit) & set(prefixes))
+    if isinstance(test, ast.Call) and is_name(test.func, "any") and test.args and isinstance(test.args[0], ast.GeneratorExp):
+        g = test.args[0]
+        lit = literal(g.generators[0].iter)
+        if isinstance(lit, (set, list, tuple)) and norm(g.elt) == "%s in %s" % (g.generators[0].target.id, pv):
+            return bool(set(lit) & set(prefixes))
     if isinstance(test, ast.Call) and isinstance(test.func, ast.Attribute) and test.func.attr == "isdisjoint" and norm(test.func.value) == "set(%s)" % pv:
         lit = literal(test.args[0])
         if isinstance(lit, (set, list, tuple)):
             return not (set(lit) & set(prefixes))
     return None
+
+
+def _no_class_test(top, var, prefixes):
+    """does the test in front of the dispatch send a symbol with these prefixes to the plain-variables branch?
+    `top` = (test, True if the variables branch is the if-body, False if it is the else-branch)"""
+    test, in_body = top
+    r = _truth(test, var, prefixes)
+    return None if r is None else (r if in_body else not r)
 
 
 @SPEC.rule(
